@@ -272,6 +272,15 @@ def install(eng):
                 "sched_accepted == old(sched_accepted) or (StatePath(the_backend) in disk_valid and "
                 "dict_eq(disk_tracked[StatePath(the_backend)], the_backend._tracked_jobs))"]},
         },
+        # C02 "the requested targets (name patterns, default all endpoints)": once the graph exists, X is introduced as an
+        # ARBITRARY dependency-closed set containing the requested targets. It is unconstrained up to that point, so this is
+        # a definition (satisfiable: X = everything). From here on submit_workflow's own "X contains the endpoints" is a
+        # proof obligation, i.e. the endpoints `run` passes on must be requested ones, and the postcondition "every
+        # scheduled target lies in X" says: nothing outside the cone of the requested targets.
+        cuts=[{"at": ("With", 1), "define": ["X"], "assume": [
+            "forall(lambda t: implies(t in ValSet(graph.targets) and "
+            "((len(targets) > 0 and any(Matches(t.name, p) for p in targets)) or "
+            "(len(targets) == 0 and not exists(lambda b: t in deps0(b), Target))), X(t)), Target)"]}],
         uses=list(sc.uses) + ["reach"], serves=["C04", "C05", "C09", "C10", "C02"])
 
     # ================================================================== gwf touch (C16)
@@ -418,6 +427,12 @@ def install(eng):
         raises={"FileProvidedByMultipleTargetsError": NOEFFECT, "UnresolvedInputError": NOEFFECT,
                 "CircularDependencyError": NOEFFECT,
                 "json.JSONDecodeError": {"cond": "True", "ensures": ["dom(first_touch) == NoPaths"]}},
+        # C16 "every selected target and each of its transitive dependencies ... touches nothing outside that cone": as for
+        # `gwf run`, X becomes an arbitrary closed set containing the REQUESTED targets once the graph exists
+        cuts=[{"at": ("With", 1), "define": ["X"], "assume": [
+            "forall(lambda t: implies(t in ValSet(graph.targets) and "
+            "((len(targets) > 0 and any(Matches(t.name, p) for p in targets)) or "
+            "(len(targets) == 0 and not exists(lambda b: t in deps0(b), Target))), X(t)), Target)"]}],
         uses=["cone", "reach"], serves=["C16", "C04"])
     vc.f_cancel_fails = z3.Function("CancelFails", vc.JobId.sort(), z3.BoolSort())
     eng.fn("CancelFails")(lambda e, st, j: V(T.BOOL, vc.f_cancel_fails(j.z)))
